@@ -3,6 +3,7 @@
 from __future__ import annotations
 
 import ast
+import collections
 import re
 import subprocess
 import warnings
@@ -183,12 +184,17 @@ def fixable_function(draw, i):
     kind = draw(st.sampled_from(["unused", "unused", "unused-sole", "unused-multiline", "unused-tuple", "unused-comp",
                                  "missing_f", "use_fstrings-percent", "use_fstrings-format", "too-many-positional",
                                  "unused-ignore-trailing", "unused-ignore-own-line", "unused-aug", "unused-line1",
-                                 "unused-unicode", "use_fstrings-unicode"]))
+                                 "unused-unicode", "use_fstrings-unicode", "unused-chain", "unused-chain-3"]))
     wrap = draw(st.sampled_from(["none", "none", "if", "for", "try", "with", "class", "semicolons", "inline-if", "inline-def"]))
     head = f"def f{i}(a, b):"
     body = []
     if kind == "unused":
         body = [f"x{i} = a + 1", "return b"]
+    elif kind == "unused-chain":
+        # several plain targets, only some of them unused
+        body = [f"x{i} = y{i} = a", f"return y{i}"] if draw(st.booleans()) else [f"y{i} = x{i} = a", f"return y{i}"]
+    elif kind == "unused-chain-3":
+        body = [f"x{i} = y{i} = z{i} = a + 0", f"return (y{i}, b)"]
     elif kind == "unused-unicode":
         # multi-byte characters: AST column offsets count UTF-8 bytes, text columns count characters
         body = [f'x{i} = "こんにちは世界、こんにちは"', "return b"]
@@ -465,6 +471,15 @@ def autofix_history(kinds, src, col=None):
                 raise
             fails.append((f"autofix|recheck-raises|{code}", f"re-checking the fixed text raised {e!r}"))
             break
+        if res2.raised is None:
+            # applying a fix must not introduce a diagnostic that was not there (a name that became undefined ...)
+            before_all = collections.Counter((d.code, first_line(d.message)) for d in res.diags)
+            after_all = collections.Counter((d.code, first_line(d.message)) for d in res2.diags)
+            new_diags = [k for k in after_all if after_all[k] > before_all.get(k, 0) and k[0] not in FIX_CODES]
+            if new_diags:
+                fails.append((f"autofix|introduces-diagnostic|{code}->{new_diags[0][0]}",
+                              f"after the fix for {diag_key(proposer)} the re-check reports a new {new_diags[0][0]}: {new_diags[0][1]}\n--- before\n{cur}--- after\n{new}"))
+                break
         if proposer is not None and res2.raised is None:
             # compare as multisets: another diagnostic with the same text may move onto the same line
             sig = (proposer.code, first_line(proposer.message))
